@@ -20,7 +20,7 @@ func drawC03(rt *rapid.T) *Case {
 	dockind := gen.Uniform(rt, "dockind", 20)
 	opaque := dockind == 2 || dockind == 3
 	// non-JSON documents get filter-heavy paths (comparisons are where Go values of arbitrary type hurt)
-	g := gen.NewG(rt, gen.PathOpts{Funcs: true, RootOmit: true, BigInts: true, FuncPct: 30, OperandFuncPct: 15, FilterHeavy: opaque})
+	g := gen.NewG(rt, gen.PathOpts{Funcs: true, RootOmit: true, BigInts: true, FuncPct: 30, OperandFuncPct: 15, FilterHeavy: opaque, LongPaths: true})
 	p := g.Path()
 	var text, fam string
 	switch k := gen.Uniform(rt, "textkind", 10); {
